@@ -19,9 +19,20 @@ C20 driver: one scenario per line, the model's prediction of the canonical resul
     direction only says which handle was converted). Prediction = composition of the denotations:
     `ok out=<len>:<fnv64 of what B writes to stdout> a=<status of A> b=<status of B>`.
 
+  mread <drv> <o|e> <hold> <len> <script> <opts>
+    the child (stdin null) runs `script`; the parent reads stdout / stderr through `read_managed(len)` from the
+    runtime's pool of 8 buffers, keeping up to `hold` of them (>= 8: until the pool reports exhaustion, then it
+    consumes the batch and retries): `ok out=<len>:<fnv64> st=<status>` (`ChildCmd.mLoop`).
+
+  reuse <drv> <seq> <script> <opts>
+    `seq` = `.`-separated calls on ONE `Command`: `si=|so=|se=` `p|n`, `status`, `output`, `spawn`; every run call gets
+    the configuration `ChildCmd.runSeq` computes from the GENERATED table of `self.0.stdin/stdout/stderr` calls:
+    `ok [status st=..] [output out=.. err=.. st=..] [spawn out=..|- err=..|- st=..] …`.
+
 Answer: `ok out=<len>:<fnv64> err=<len>:<fnv64> sunk=<n> w=<ok|epipe|racy> st=<code:N|sig:N>` | `deadlock` | `loose`.
 -/
 import Compio.Model.ChildIo
+import Compio.Model.ChildCmd
 
 open Compio Compio.ChildIo
 
@@ -104,6 +115,30 @@ def answer (c : Cfg) (script : List CAct) (payload : Bytes) (stdinNull : Bool) (
   let e := if errHeld then "-" else showBytes s.rerr
   s!"ok out={o} err={e} sunk={s.sunk} w={w} st={st}"
 
+def parseBOp (t : String) : Option ChildCmd.BOp :=
+  match t with
+  | "status" => some (.run .status)
+  | "output" => some (.run .output)
+  | "spawn" => some (.run .spawn)
+  | _ =>
+    match t.splitOn "=" with
+    | [s, v] =>
+      let sd : Option ChildCmd.Sd := match v with | "p" => some .piped | "n" => some .null | _ => none
+      let st : Option Gen.CommandShape.Stream :=
+        match s with | "si" => some .stdin | "so" => some .stdout | "se" => some .stderr | _ => none
+      match st, sd with
+      | some st, some sd => some (.set st sd)
+      | _, _ => none
+    | _ => none
+
+/-- the harness only runs sequences in which all three streams are configured before the first run -/
+def reuseOk : List ChildCmd.BOp → Bool × Bool × Bool → Bool
+  | [], _ => true
+  | .set .stdin _ :: r, (_, b, c) => reuseOk r (true, b, c)
+  | .set .stdout _ :: r, (a, _, c) => reuseOk r (a, true, c)
+  | .set .stderr _ :: r, (a, b, _) => reuseOk r (a, b, true)
+  | .run _ :: r, (a, b, c) => a && b && c && reuseOk r (a, b, c)
+
 def step (_ : Unit) (line : String) : Unit × String :=
   if line.startsWith "#case" then ((), line.trimAscii.toString) else
   let out :=
@@ -128,6 +163,36 @@ def step (_ : Unit) (line : String) : Unit × String :=
           let da := denS sa []
           let db := denS sb da.out
           s!"ok out={showBytes db.out} a={showStatus da.st} b={showStatus db.st}"
+      | _, _ => "bad-op"
+    | ["mread", drv, d, hold, len, script, _opts] =>
+      match hold.toNat?, len.toNat?, parseScript script with
+      | some hold, some len, some script =>
+        if (drv ≠ "uring" ∧ drv ≠ "poll") ∨ (d ≠ "o" ∧ d ≠ "e") ∨ len = 0 ∨ len > 8192 ∨ !wfScript script
+            ∨ script.any (fun a => match a with | .copy _ _ _ => true | _ => false) then "bad-op"
+        else
+          let dn := denS script []
+          let src := if d = "o" then dn.out else dn.err
+          let s := ChildCmd.mLoop 8 hold len (2 * src.length + 20) (ChildCmd.mInit 8 src)
+          if s.done then s!"ok out={showBytes s.out} st={showStatus dn.st}" else "stuck"
+      | _, _, _ => "bad-op"
+    | ["reuse", drv, seq, script, _opts] =>
+      match allSome ((seq.splitOn ".").map parseBOp), parseScript script with
+      | some ops, some script =>
+        if (drv ≠ "uring" ∧ drv ≠ "poll") ∨ !wfScript script ∨ !reuseOk ops ⟨false, false, false⟩
+            ∨ script.any (fun a => match a with | .copy _ _ _ => true | _ => false)
+            ∨ (denS script []).out.length + (denS script []).err.length > 3000 then "bad-op"
+        else
+          let dn := denS script []
+          let parts := (ChildCmd.runSeq ChildCmd.BCfg.fresh ops).map fun (k, b) =>
+            let o := ChildCmd.captured b.sout dn.out
+            let e := ChildCmd.captured b.serr dn.err
+            match k with
+            | .status => s!"[status st={showStatus dn.st}]"
+            | .output => s!"[output out={showBytes (o.getD [])} err={showBytes (e.getD [])} st={showStatus dn.st}]"
+            | .spawn =>
+              let sh := fun (x : Option Bytes) => match x with | some b => showBytes b | none => "-"
+              s!"[spawn out={sh o} err={sh e} st={showStatus dn.st}]"
+          " ".intercalate ("ok" :: parts)
       | _, _ => "bad-op"
     | _ => "bad-op"
   ((), out)
